@@ -731,7 +731,8 @@ def run(ctx):
     nS = 600 if thorough else 30
     progsS = []
     for i in range(nS):
-        g = fraggen.Gen(fraggen.Rng(ctx.seed * 7907 + i), stage1=True, zero_div=(i % 4 == 0), big_lits=(i % 3 == 0))
+        # the frozen stage-1 model has no if-expressions / loops: keep the generator on the straight-line fragment
+        g = fraggen.Gen(fraggen.Rng(ctx.seed * 7907 + i), stage1=True, zero_div=(i % 4 == 0), big_lits=(i % 3 == 0), conds=False, loops=False)
         p = g.program()
         if i % 3 == 2:
             p, _ = mutate_tree(p, fraggen.Rng(ctx.seed * 7 + i))
